@@ -15,11 +15,93 @@ import jax.numpy as jnp
 from jax.extend import core as jcore
 
 from ..common import Unsupported
-from .field import Fr, is_obj, lift_array, det_sym, inv_sym
+from .field import Fr, NonFin, is_obj, lift_array, det_sym, inv_sym
 
 ARITH = {"add", "add_any", "sub", "mul", "div", "dot_general", "triangular_solve", "lu", "neg", "reduce_sum",
          "integer_pow", "max", "min", "reduce_prod", "cumsum", "cumprod", "exp", "sqrt", "pow", "square", "log", "rsqrt",
          "sign", "real", "imag", "conj", "complex", "abs", "expm1", "log1p", "erf", "cos", "sin", "tanh", "atan2"}
+
+
+class Unk:
+    """three-valued logic: the answer of isnan / isinf on a non-finite value whose exact IEEE form is not tracked"""
+
+    def __init__(self, which, uid):
+        self.which, self.uid = which, uid
+
+    def __repr__(self):
+        return f"<is{self.which}?#{self.uid}>"
+
+
+def _nonfin_test(which, x):
+    """isnan / isinf / is_finite elementwise on an object array that may contain NonFin values"""
+    flat = x.reshape(-1)
+    out = np.zeros(len(flat), dtype=object)
+    for k, v in enumerate(flat):
+        if not isinstance(v, NonFin):
+            out[k] = (which == "finite")
+            continue
+        if v.kind == "bad":
+            raise Unsupported("finiteness test of a value that may or may not be finite (x / non-finite)")
+        if which == "finite":
+            out[k] = False
+        elif which == "inf" and v.kind == "inf":
+            out[k] = True
+        else:
+            out[k] = Unk(which, v.uid)
+    if not any(isinstance(v, Unk) for v in out):
+        out = out.astype(bool)
+    return out.reshape(x.shape)
+
+
+def _or3(a, b):
+    if a is True or b is True or (isinstance(a, (bool, np.bool_)) and bool(a)) or (isinstance(b, (bool, np.bool_)) and bool(b)):
+        return True
+    ua, ub = isinstance(a, Unk), isinstance(b, Unk)
+    if ua and ub:
+        if a.uid == b.uid and a.which != b.which:
+            return True        # isnan(v) | isinf(v) of a value known to be non-finite
+        if a.uid == b.uid:
+            return a
+        raise Unsupported("disjunction of two undetermined isnan/isinf answers")
+    return a if ua else (b if ub else False)
+
+
+def _and3(a, b):
+    fa = isinstance(a, (bool, np.bool_)) and not bool(a)
+    fb = isinstance(b, (bool, np.bool_)) and not bool(b)
+    if fa or fb:
+        return False
+    ua, ub = isinstance(a, Unk), isinstance(b, Unk)
+    if ua and ub:
+        raise Unsupported("conjunction of two undetermined isnan/isinf answers")
+    return a if ua else (b if ub else True)
+
+
+def _logic(p, ins, P):
+    arrs = [np.asarray(x, dtype=object) for x in ins]
+    if p == "not":
+        if any(isinstance(v, Unk) for v in arrs[0].reshape(-1)):
+            raise Unsupported("negation of an undetermined isnan/isinf answer")
+        return ~arrs[0].astype(bool)
+    if p in ("or", "and"):
+        a, b = np.broadcast_arrays(*arrs)
+        f = _or3 if p == "or" else _and3
+        out = np.empty(a.shape, dtype=object)
+        for idx in np.ndindex(*a.shape):
+            out[idx] = f(a[idx], b[idx])
+    else:   # reduce_or / reduce_and
+        import functools
+        f = _or3 if p == "reduce_or" else _and3
+        a = arrs[0]
+        axes = tuple(P["axes"])
+        keep = [i for i in range(a.ndim) if i not in axes]
+        am = np.transpose(a, keep + list(axes)).reshape(tuple(a.shape[i] for i in keep) + (-1,))
+        out = np.empty(am.shape[:-1], dtype=object)
+        for idx in np.ndindex(*out.shape):
+            out[idx] = functools.reduce(f, list(am[idx]), p == "reduce_and")
+    if not any(isinstance(v, Unk) for v in out.reshape(-1)):
+        out = out.astype(bool)
+    return out
 
 
 def batched(f, A, outnd):
@@ -110,6 +192,8 @@ class Interp:
                 if r is not None:
                     return r
             if nm in ("isinf", "isnan", "isposinf", "isneginf") and anysym:
+                if nm in ("isinf", "isnan") and len(ins) == 1 and is_obj(ins[0]):
+                    return [_nonfin_test(nm[2:], ins[0])]     # generic point: finite unless a division by zero produced it
                 return [np.zeros(tuple(v.aval.shape), dtype=bool) for v in e.outvars]   # generic point: no NaN/inf
             if nm in ("inv", "det") and len(ins) == 1 and len(e.outvars) == 1:
                 ish, osh = tuple(np.shape(ins[0])), tuple(e.outvars[0].aval.shape)
@@ -241,16 +325,27 @@ class Interp:
         if p in ("ne", "eq") and anysym:
             a_, b_ = [x if is_obj(x) else self.sym(np.asarray(x)) for x in ins]
             a_, b_ = np.broadcast_arrays(a_, b_)
+            if p == "ne" and any(isinstance(v, NonFin) for v in a_.reshape(-1)) and all(x is y for x, y in zip(a_.reshape(-1), b_.reshape(-1))):
+                return _nonfin_test("nan", a_)        # x != x is the inlined isnan
             r = np.empty(a_.shape, dtype=bool)
             for idx in np.ndindex(*a_.shape):
                 r[idx] = (a_[idx] - b_[idx]).iszero()
             return r if p == "eq" else ~r
         if p == "is_finite":
+            if is_obj(ins[0]):
+                return _nonfin_test("finite", ins[0])
             return np.ones(np.shape(ins[0]), dtype=bool)   # generic point: no NaN/inf
+        if p in ("or", "and", "not", "reduce_or", "reduce_and") and anysym:
+            return _logic(p, ins, P)
         if p == "select_n":
             pred = ins[0]
             if is_obj(pred):
-                raise Unsupported("select_n on a symbolic predicate")
+                if all(isinstance(v, (bool, np.bool_)) for v in pred.reshape(-1)):
+                    pred = pred.astype(bool)
+                elif any(isinstance(v, Unk) for v in pred.reshape(-1)):
+                    raise Unsupported("select_n on an undetermined isnan/isinf answer")
+                else:
+                    raise Unsupported("select_n on a symbolic predicate")
             cases = [np.broadcast_to(x if is_obj(x) else self.sym(x), np.shape(pred)) if np.ndim(pred) else x for x in ins[1:]]
             if np.ndim(pred) == 0:
                 return cases[int(pred)]
@@ -332,15 +427,25 @@ class Interp:
             return [np.stack([o[k] for o in outs]) for k in range(3)]
         n = A.shape[0]
         A = self.sym(A).copy()
+        pivots = np.arange(n, dtype=np.int32)
+        perm = np.arange(n, dtype=np.int32)
         for k in range(n):
+            # structural pivoting: the first entry of the column that is not identically zero (any valid P A = L U serves: the
+            # callers' results are rational functions that do not depend on the pivot choice); a column that is identically
+            # zero below the diagonal is skipped as LAPACK getrf does (singular input, e.g. det's cofactor JVP)
+            r = next((i for i in range(k, n) if not A[i, k].iszero()), None)
+            if r is None:
+                continue
+            if r != k:
+                A[[k, r], :] = A[[r, k], :]
+                perm[[k, r]] = perm[[r, k]]
+            pivots[k] = r
             piv = A[k, k]
-            if piv.iszero():
-                raise Unsupported("zero pivot at the generic point")
             for i in range(k + 1, n):
                 A[i, k] = A[i, k] / piv
                 for j in range(k + 1, n):
                     A[i, j] = A[i, j] - A[i, k] * A[k, j]
-        return [A, np.arange(n, dtype=np.int32), np.arange(n, dtype=np.int32)]
+        return [A, pivots, perm]
 
     def trisolve(self, a, b, P):
         if not P["left_side"]:
@@ -375,6 +480,9 @@ class Interp:
         half, mhi = self.sp.const(Fraction_half()), self.sp.const((0, -Fraction_half()))
         out = np.empty(len(flat), dtype=object)
         for k, v in enumerate(flat):
+            if isinstance(v, NonFin):
+                out[k] = v.conj() if p == "conj" else NonFin("bad")
+                continue
             c = v.conj()
             out[k] = c if p == "conj" else ((v + c) * half if p == "real" else (v - c) * mhi)
         return out.reshape(np.shape(x))
